@@ -820,7 +820,7 @@ func (au ApplyUpdate) ForEachTreeNode(fn func(row, col uint64, h types.Hash256))
 
 // ChainIndexElement returns the chain index element for the applied block.
 func (au ApplyUpdate) ChainIndexElement() types.ChainIndexElement {
-	return au.cie
+	return au.cie.Copy()
 }
 
 // ApplyBlock applies b to s, producing a new state and a set of effects.
@@ -872,7 +872,7 @@ type RevertUpdate struct {
 
 // ChainIndexElement returns the chain index element related to the applied
 // block.
-func (ru RevertUpdate) ChainIndexElement() types.ChainIndexElement { return ru.cie }
+func (ru RevertUpdate) ChainIndexElement() types.ChainIndexElement { return ru.cie.Copy() }
 
 // SiacoinElementDiffs returns the siacoin element diffs related to the applied
 // block.
